@@ -233,6 +233,81 @@ def h_stop(params, model=None):
     return fn
 
 
+def h_latestart(params, model=None):
+    """start() has returned but the service thread has not entered run() yet (its body is captured instead of started);
+    the application calls stop() in that window; then the thread body runs.  A stop requested after start() must be
+    honoured: the work function is never called, and a later start() works iff the stop was not final."""
+    RN = _rn()
+
+    def fn():
+        e = Env(model)
+        nstops = 1 + e.choose("nstops", 2)
+        stops = [bool(e.choose("forever", 2)) for _ in range(nstops)]
+        restart = bool(e.choose("restart_after", 2))
+        calls, done = [], []
+        captured = []
+
+        class FakeThread:
+            def __init__(self, *a, target=None, kwargs=None, **k):
+                captured.append((target, kwargs or {}))
+
+            def start(self):
+                pass
+
+            def is_alive(self):
+                return False
+
+            def join(self, timeout=None):
+                pass
+            name = "x"
+        real_thread = RN.threading.Thread
+        RN.threading.Thread = FakeThread
+        try:
+            class Svc(RN.Runnable):
+                def do(self):
+                    calls.append(len(calls))
+
+                def interruptable_sleep(self, secs):
+                    pass
+
+                def done(self):
+                    done.append(len(calls))
+            svc = Svc()
+            svc.start(until=lambda: len(calls) >= 3, sleep=0)
+            for fv in stops:
+                svc.stop(forever=fv, wait=False)
+            final = stops[-1]
+            target, kw = captured[-1]
+            try:
+                target(**kw)                      # the thread body runs now
+            except BaseException as ex:
+                if type(ex).__name__ in ("PathAbort", "Inconclusive", "Unsupported", "StepBudget"):
+                    raise
+                return {"ok": False, "info": {"why": "exception escaped run()", "exc": type(ex).__name__}}
+            info = {"stops": stops, "calls": len(calls), "done": done}
+            if calls:
+                return {"ok": False, "info": dict(info, why="work function called although stop() was requested after start() and before the thread body began")}
+            if not svc.stopped or svc.started:
+                return {"ok": False, "info": dict(info, why="stopped/started flags wrong after the thread body returned")}
+            if restart:
+                try:
+                    svc.start(until=lambda: len(calls) >= 2, sleep=0)
+                    raised = False
+                except RuntimeError:
+                    raised = True
+                if raised != final:
+                    return {"ok": False, "info": dict(info, why="start() after stop: RuntimeError iff the last stop was final")}
+                if not raised:
+                    target, kw = captured[-1]
+                    target(**kw)
+                    if len(calls) != 2:
+                        return {"ok": False, "info": dict(info, why="restarted service did not run its work function until its condition", calls2=len(calls))}
+            return {"ok": True, "key": repr((stops, restart)), "nontrivial": True}
+        finally:
+            RN.threading.Thread = real_thread
+    return fn
+
+
 def h_notify(params, model=None):
     RN = _rn()
     import cloudsync.notification as NT
@@ -319,7 +394,7 @@ def _mut(name, inner):
     return factory
 
 
-HARNESSES = {"backoff": h_backoff, "stop": h_stop, "notify": h_notify, "triples": h_triples,
+HARNESSES = {"backoff": h_backoff, "stop": h_stop, "latestart": h_latestart, "notify": h_notify, "triples": h_triples,
              "backoff~no-cap": _mut("no-cap", h_backoff)}
 
 
@@ -346,6 +421,7 @@ def jobs(tier):
         {"harness": "backoff", "params": {"K": 4}, "label": "backoff/K=4/mult-symbolic", "smt_dump": 4 if q else 40},
     ] + ([] if q else [{"harness": "backoff", "params": {"K": 6, "mults": ["1", "3/2", "2", "10"]}, "label": "backoff/K=6/mult-in-{1,1.5,2,10}"}]) + [
         {"harness": "stop", "params": {"K": 3 if q else 4}, "label": "stop/K=%d" % (3 if q else 4)},
+        {"harness": "latestart", "params": {}, "label": "stop-between-start-and-thread-entry"},
         {"harness": "notify", "params": {"N": 4 if q else 6}, "label": "notify/N=%d" % (4 if q else 6)},
         {"harness": "triples", "params": {}, "label": "derived-triples"},
         {"harness": "backoff~no-cap", "params": {"K": 2}, "label": "backoff~no-cap", "role": "sens"},
